@@ -96,6 +96,9 @@ func c05scenario(k0, k1, reads int) {
 		cancel()
 		return
 	}
+	// the caller goes on using its own struct after Config returned: none of that may reach the
+	// library's copy of the defaults
+	defc.A, defc.P.X = defc.A+7, defPX+1
 	var wg sync.WaitGroup
 	reporter := func(idx int, s *hwsrc, n int) {
 		defer wg.Done()
@@ -138,7 +141,8 @@ func c05scenario(k0, k1, reads int) {
 	zzverif.Assert(zzverif.And(got.A == want.A, got.B == want.B), "C05 the view differs from a fresh stack of the latest reported values")
 	zzverif.Assert(got.Bad == want.Bad, "C05 the view's validity flag differs from a fresh stack")
 	zzverif.Assert(got.P != nil && got.P.X == want.P.X, "C05 the view's nested section differs from a fresh stack of the latest reported values")
-	zzverif.Assert(defc.P != nil && defc.P.X == defPX && defc.P != got.P, "C05 re-stacking wrote through to the caller's defaults")
+	zzverif.Assert(defc.P != nil && defc.P.X == defPX+1 && defc.P != got.P, "C05 re-stacking wrote through to the caller's defaults")
+	zzverif.Assert(got.Derived == got.A+1, "C05 the view lacks what Verify fills in (a fresh Config call runs Verify on the config it installs)")
 	zzverif.Assert(ser.s == wantSerial, "C05 the serial does not count the installed versions")
 	g.observe("final ViewVersion", got, ser.s, true)
 	zzverif.Reached("c05-end")
